@@ -37,5 +37,6 @@ MC_NaryOpsAll == MC_NaryOps \cup {"bioMultSum3"}
 MC_Exponents == {I(2), I(3), I(-1), Q(1, 2)}
 MC_KeySets == {<<1, 3>>, <<3, 1>>}
 MC_None == {}
+MC_DrawTab == << >>
 MC_Thin == <<1>>
 =============================================================================
